@@ -28,6 +28,18 @@ def run(v, tier):
         key = f"{clause}:{ev['m']}:{tkey([c for c in t['calls'][:line]])}"
         v.fail(key, f"after calls {[c['m'] for c in t['calls'][:line]]} (phase {t['phase']}): clause {clause} at call {line} ({ev['m']})",
                {'family': 'gen', 'case': {'phase': t['phase'], 'calls': t['calls'], 'clause': clause, 'line': line}})
+    # deep random behaviours of the same model (TLC simulation), replayed and validated the same way
+    deep = gen.explore(v, 'C04', 'c04-simulate', 12 if quick else 16, simulate=(150 if quick else 2000, pi2v.SEED + 1))
+    dtraces = gen.replay_sequences(deep)
+    if dtraces:
+        v.sample({'deep_behaviour': [c['m'] for c in dtraces[0]['calls']]})
+    for tid, line, clause in gen.validate(v, 'C04', 'c04-simulate-replay', dtraces):
+        if clause.split('/')[0] not in C04_CLAUSES:
+            continue
+        t = dtraces[tid - 1]
+        ev = t['events'][line - 1]
+        v.fail(f"{clause}:{ev['m']}:{tkey([c for c in t['calls'][:line]])}", f"after calls {[c['m'] for c in t['calls'][:line]]} (phase {t['phase']}): clause {clause} at call {line} ({ev['m']})",
+               {'family': 'gen', 'case': {'phase': t['phase'], 'calls': t['calls'], 'clause': clause, 'line': line}})
     memo(v, quick)
     # whole modules, both optimise settings
     mt = gen.module_traces(SHIPPED if not quick else SHIPPED[:3] + ['definedness'])
